@@ -281,7 +281,7 @@ def main(tier, seed):
     if ran:
         import fickling.ml as fml
         voc_ok = ([g[1] in fml.ML_ALLOWLIST.get(g[0], ()) for g in VOCAB] ==
-                  [True, False, False, False, False, False, False]
+                  [True] + [False] * (len(VOCAB) - 1)
                   and "numpy" in fml.ML_ALLOWLIST and "fractions" not in fml.ML_ALLOWLIST
                   and "decimal" not in fml.ML_ALLOWLIST)
         chk.stats["vocabulary_as_intended"] = voc_ok
